@@ -267,6 +267,60 @@ func init() {
 			hc.Close()
 		}
 		c.Distinct("concurrent-three-way")
+		// ---- emptied list: one transaction proposed and confirmed leaves both per-address lists present but
+		// empty; the issuer saves the next one while clients poll both addresses (the reader's "delete the
+		// empty list" branch is a write too). After quiescence the saved transaction is listed once for both.
+		er := 1500
+		if c.Tier == "thorough" {
+			er = 20000
+		}
+		{
+			hc, err := cache.New(1000, 1024)
+			if err != nil {
+				return err
+			}
+			iss, rec := w.wallets[2], w.wallets[0]
+			for r := 0; r < er; r++ {
+				first := w.NewTrx(iss, rec.Address(), spice.Melange{}, []byte{byte(r), byte(r >> 8), 7})
+				hc.SaveAwaitedTransaction(&first)
+				hc.RemoveAwaitedTransaction(first.Hash, rec.Address())
+				next := w.NewTrx(iss, rec.Address(), spice.Melange{}, []byte{byte(r), byte(r >> 8), 8})
+				start := make(chan struct{})
+				var wg sync.WaitGroup
+				for _, a := range []string{iss.Address(), rec.Address()} {
+					for i := 0; i < 5; i++ {
+						wg.Add(1)
+						go func(a string) { defer wg.Done(); <-start; hc.ReadTransactions(a) }(a)
+					}
+				}
+				var saveErr error
+				wg.Add(1)
+				go func() { defer wg.Done(); <-start; saveErr = hc.SaveAwaitedTransaction(&next) }()
+				close(start)
+				wg.Wait()
+				checked++
+				c.Rep.Evals++
+				bad := ""
+				if saveErr != nil {
+					bad = "save failed: " + saveErr.Error()
+				}
+				for _, a := range []string{iss.Address(), rec.Address()} {
+					got, _ := hc.ReadTransactions(a)
+					if bad == "" && (len(got) != 1 || got[0].Hash != next.Hash) {
+						bad = fmt.Sprintf("after a save concurrent with polling readers of an emptied list the saved transaction is listed %d times for %s", len(got), w.A(a))
+					}
+				}
+				if bad != "" {
+					lost++
+					c.Violate("C17", "save-lost-to-polling-reader-of-emptied-list", fmt.Sprintf("%s (round %d)", bad, r),
+						map[string]interface{}{"section": "await", "scenario": "emptied-list", "round": r})
+					break
+				}
+				hc.RemoveAwaitedTransaction(next.Hash, rec.Address())
+			}
+			hc.Close()
+		}
+		c.Distinct("concurrent-emptied-list")
 		c.Rep.Extra["concurrent_rounds"] = checked
 		c.Rep.Extra["concurrent_rounds_with_lost_entries"] = lost
 		c.Distinct("concurrent")
